@@ -176,8 +176,11 @@ def runOp (s : DSt) (op : Op) (evid : Id := 0) : DSt × String :=
   ({ s with m := m', sp := sp' }, line)
 
 /-- event id as left in the caller's event structure (internal) -/
-def evidAfter (op : Op) (out : Out) : Id :=
+def evidAfter (op : Op) (out : Out) (bi : Bool := false) : Id :=
+  let handled := bi && (match out.ret with | .val v => decide (0 ≤ v) | _ => false)
   match op, out.log with
+  | .emitId id _, [] => if handled then (unknownEvent id none).2 else id
+  | .emitMsg (b :: r) _, [] => if handled then (unknownEvent b.toUInt64 (some (b :: r))).2 else b.toUInt64
   | .emitId id h, [.call _ _] => if h.zero then 0 else id
   | .emitId id _, _ => id
   | .emitMsg (b :: _) h, [.call _ _] => if h.zero then 0 else b.toUInt64
@@ -221,7 +224,7 @@ def stepOp (s : DSt) (op : Op) : DSt × String :=
   if decide (s.m.next ≥ 4096) && (match op with | .set _ | .cset _ | .reserve _ | .setError => true | _ => false) then (s, "bad-op")
   else
     let out := (step s.m op).2
-    runOp s op (evidAfter op out)
+    runOp s op (evidAfter op out s.m.d.bi)
 
 def stepLine (s : DSt) (w : List String) : DSt × String :=
   match w with
@@ -240,13 +243,22 @@ def stepLine (s : DSt) (w : List String) : DSt × String :=
       | some (.tcopy r) => if holdsReg s.m r then stepOp s (.tcopy r) else (s, "bad-op")
       | some op => stepOp s op
 
+/-- `set_handler` answers a bool: the return code among the internals is 0 or -1 -/
+def boolRet (line : String) : String :=
+  match line.splitOn " | I ret=" with
+  | [a, b] =>
+    let rest := (b.splitOn " ").drop 1
+    let v := (b.splitOn " ").headD ""
+    a ++ " | I ret=" ++ (if v.startsWith "-" then "-1" else "0") ++ " " ++ " ".intercalate rest
+  | _ => line
+
 /-- the C++ class `mpt::dispatch` (mpt++/event.cpp): its methods are the C functions on `this`, plus
     `handler(id)`, `set_default`, `set_error` and the destructor -/
 def stepX (s : DSt) (w : List String) : DSt × String :=
   match w with
   | ["xe", "new", f] => stepLine s ["e", "new", f]
-  | ["xe", "set", id] => stepLine s ["e", "set", id]
-  | ["xe", "clear", id] => stepLine s ["e", "clear", id]
+  | ["xe", "set", id] => let (s', o) := stepLine s ["e", "set", id]; (s', boolRet o)
+  | ["xe", "clear", id] => let (s', o) := stepLine s ["e", "clear", id]; (s', boolRet o)
   | "xe" :: "emit" :: rest => stepLine s ("e" :: "emit" :: rest)
   | ["xe", "hash", a, b] => stepLine s ["e", "hash", a, b]
   | ["xe", "reserve", n] => stepLine s ["e", "reserve", n]
